@@ -3,6 +3,7 @@ From Coq Require Extraction ExtrOcamlBasic ExtrOcamlString.
 From Coq Require Import List Arith.
 Require Import TT.Model.Base TT.Model.Str TT.Model.Topo TT.Model.C13Order.
 Require Import TT.Spec.TsLex TT.Spec.TsModule TT.Spec.TsObs TT.Spec.C13Spec.
+Require Import TT.Model.C13Text.
 Import ListNotations.
 
 (* the patched pipeline under hash orders w, and the pipeline run directly under w (no sorting: the
@@ -15,5 +16,25 @@ Definition c13_classes (p : project) : list bool := [kf_dupdef p; kf_dupevent p]
 Definition c13_rel (a b : str) : verdict := rel a b.
 Definition c13_labels (s : str) : sx := labels s.
 
+
+(* round 7, text level: the order-bearing lines of the two graph files as text (type names from a table:
+   id n is the n-th name), the token blocks of a struct / a Params interface in plain types.ts and of a
+   wrapper in plain commands.ts (Model/Pipeline.v through Model/C13Text.v), and the tokens of a generated
+   file cut into blocks at the keyword export *)
+Definition no_struct : Pipeline.struct_def := {| Pipeline.s_name := []; Pipeline.s_serde := []; Pipeline.s_fields := [] |}.
+Definition no_fn : Pipeline.fn_def := {| Pipeline.fn_name := []; Pipeline.fn_attrs := []; Pipeline.fn_async := false; Pipeline.fn_params := []; Pipeline.fn_ret := None |}.
+Definition c13_viz_text (names : list str) (w : omega) (p : project) : viz_text :=
+  viz_text_of {| k_struct := fun _ => no_struct; k_cmd := fun _ => no_fn; k_event := fun _ => []; k_pay := fun _ => [];
+                 k_type := fun n => nth (n - 1) names [] |} w p.
+(* the blocks of types_blocks / commands_blocks for one output, given the content by tables *)
+Definition c13_blocks (structs : list Pipeline.struct_def) (cmds : list Pipeline.fn_def) (o : output) : list (list sx) * list (list sx) :=
+  let k := {| k_struct := fun b => nth b structs no_struct; k_cmd := fun c => nth (c - 1) cmds no_fn;
+              k_event := fun _ => []; k_pay := fun _ => []; k_type := fun _ => [] |} in
+  (map (map sx_tk) (types_blocks k o), map (map sx_tk) (commands_blocks k o)).
+Definition c13_text_blocks (structs : list Pipeline.struct_def) (cmds : list Pipeline.fn_def) (zod : bool) (w : omega) (p : project)
+  : option (list (list sx) * list (list sx)) :=
+  match gen zod w p with Some o => Some (c13_blocks structs cmds o) | None => None end.
+Definition c13_file_blocks (s : str) : list (list sx) := map (map sx_tk) (cut_export [] (lex_module s)).
+
 Extraction Language OCaml.
-Extraction "tt_c13.ml" c13_gen c13_gen_raw c13_viz c13_classes c13_rel c13_labels.
+Extraction "tt_c13.ml" c13_gen c13_gen_raw c13_viz c13_classes c13_rel c13_labels c13_viz_text c13_text_blocks c13_file_blocks.
